@@ -50,6 +50,11 @@ type rrState struct {
 
 type failure struct{ sig, detail string }
 
+type depEdge struct {
+	to   int
+	late bool // registered after the release of the dependency had been decided
+}
+
 type Sim struct {
 	c  *Case
 	mu sync.Mutex
@@ -79,8 +84,18 @@ type Sim struct {
 
 	timerBud, failBud int32
 	forks             int
-	sawKeyLock        bool
-	active            int32
+
+	// liveness of computations and who registered what, for the clause "a resource is not released while a
+	// computation that registered it has not been superseded or stopped"
+	depEdges   map[int][]depEdge // dependency node -> dependants, as registered by addOut
+	decided    map[int]bool      // release of the node has been decided (shouldRelease seen)
+	liveRoot   map[int]bool      // computation of a rerunner: begun, and neither failed nor superseded nor stopped
+	inProgress map[int]bool      // cached sub-computation: its function is running
+	pubNode    map[int]int       // rerunner -> node of its published computation
+	expectRoot map[int64]bool    // goroutine is between r.mu.Lock and the compute.begin of the rerunner's computation
+	resNode    map[int]bool      // node ids of Resources (slots and InvalidateAfter)
+	sawKeyLock bool
+	active     int32
 }
 
 var errFail = errors.New("harness: compute failed")
@@ -160,6 +175,43 @@ func keyInt(x interface{}) int {
 	return -1
 }
 
+// liveDependant looks for a computation that is current (its function is running, or it is the published
+// computation of a rerunner that was not stopped) and that registered node n - directly or through cached
+// sub-computations - before the release of the node it registered on had been decided.
+func (s *Sim) liveDependant(n int) (int, bool) {
+	seen := map[int]bool{n: true}
+	work := []int{n}
+	for len(work) > 0 {
+		x := work[0]
+		work = work[1:]
+		for _, e := range s.depEdges[x] {
+			if e.late || seen[e.to] {
+				continue
+			}
+			if s.liveRoot[e.to] || s.inProgress[e.to] {
+				return e.to, true
+			}
+			seen[e.to] = true
+			work = append(work, e.to)
+		}
+	}
+	return 0, false
+}
+
+// releaseDecided is called when the code under test decides to release node n (shouldRelease).
+func (s *Sim) releaseDecided(n int, how string) {
+	if s.decided[n] {
+		return
+	}
+	if s.resNode[n] {
+		if x, ok := s.liveDependant(n); ok {
+			s.fail("resource-released-while-current-computation-depends-on-it",
+				fmt.Sprintf("release of resource node %d decided (%s) while computation node %d, which registered it and is neither superseded nor stopped nor failed, still depends on it", n, how, x))
+		}
+	}
+	s.decided[n] = true
+}
+
 // record translates a hook passage into an event (s.mu held).
 func (s *Sim) record(gid int64, point string, args []interface{}) {
 	e := ev{gid: gid, kind: point}
@@ -180,15 +232,25 @@ func (s *Sim) record(gid int64, point string, args []interface{}) {
 		}
 	case "reactive.release.dep":
 		e.a, e.b, e.f1 = s.id(args[0]), s.id(args[1]), args[2].(bool)
+		if e.f1 {
+			s.releaseDecided(e.a, "the release of a dependant found it should go")
+		}
 	case "reactive.addOut":
 		e.a, e.b, e.f1, e.f2, e.f3 = s.id(args[0]), s.id(args[1]), args[2].(bool), args[3].(bool), args[4].(bool)
 		s.used[e.a] = true
+		if e.f1 {
+			s.depEdges[e.a] = append(s.depEdges[e.a], depEdge{to: e.b, late: s.decided[e.a]})
+		}
+		if e.f3 {
+			s.releaseDecided(e.a, "addOut found no dependant")
+		}
 	case "reactive.handleInvalidate":
 		e.a, e.f1 = s.id(args[0]), args[1].(bool)
 	case "reactive.InvalidateAfter.new":
 		e.kind = "timer.new"
 		e.a = s.id(args[0])
 		s.timers[e.a] = 0
+		s.resNode[e.a] = true
 	case "reactive.handleRelease":
 		if s.harnessRes[ptrOf(args[0])] {
 			return
@@ -227,10 +289,24 @@ func (s *Sim) record(gid int64, point string, args []interface{}) {
 		}
 		e.kind, e.env, e.a = "env.timer", true, s.id(args[0])
 		s.timers[e.a] = 1
-	case "reactive.Resource.Strobe", "reactive.compute.end":
+	case "reactive.Resource.Strobe":
+		return
+	case "reactive.compute.end":
+		delete(s.inProgress, s.id(args[0]))
 		return
 	case "reactive.compute.begin", "reactive.compute.fail":
 		e.a = s.id(args[0])
+		if point == "reactive.compute.begin" {
+			if s.expectRoot[gid] {
+				delete(s.expectRoot, gid)
+				s.liveRoot[e.a] = true
+			} else {
+				s.inProgress[e.a] = true
+			}
+		} else {
+			delete(s.liveRoot, e.a)
+			delete(s.inProgress, e.a)
+		}
 	case "reactive.rerunner.new":
 		s.rrPtr[ptrOf(args[0])] = s.creating
 		s.cachePtr[ptrOf(args[1])] = s.creating
@@ -243,11 +319,23 @@ func (s *Sim) record(gid int64, point string, args []interface{}) {
 		}
 	case "reactive.run.locked", "reactive.stop.mark":
 		e.a, e.f1 = s.rrPtr[ptrOf(args[0])], args[1].(bool)
+		if point == "reactive.run.locked" {
+			if !e.f1 {
+				s.expectRoot[gid] = true
+			}
+		} else if n, ok := s.pubNode[e.a]; ok { // Stop: the published computation is stopped
+			delete(s.liveRoot, n)
+			delete(s.pubNode, e.a)
+		}
 	case "reactive.run.publish":
 		e.a, e.f1, e.b = s.rrPtr[ptrOf(args[0])], args[1].(bool), s.id(args[2])
 		st := s.st[e.a]
 		e.val = st.pendingOut
 		st.published, st.hasPub = st.pendingOut, true
+		if n, ok := s.pubNode[e.a]; ok { // the previous computation is superseded
+			delete(s.liveRoot, n)
+		}
+		s.pubNode[e.a] = e.b
 	default:
 		s.fail("harness-unknown-hook-point", point)
 		return
@@ -339,6 +427,7 @@ func (s *Sim) newResLocked(sl int) (*reactive.Resource, int) {
 	r := reactive.NewResource()
 	id := s.id(r)
 	s.harnessRes[ptrOf(r)] = true
+	s.resNode[id] = true
 	return r, id
 }
 
@@ -632,7 +721,9 @@ func RunCase(c *Case) (res *Result) {
 	s := &Sim{c: c, ids: map[uintptr]int{}, harnessRes: map[uintptr]bool{}, rrPtr: map[uintptr]int{}, cachePtr: map[uintptr]int{},
 		counts: map[string]int{}, harnessGid: map[int64]bool{}, ruleDone: make([]bool, len(c.Rules)), prng: vh.NewRng(c.PSeed),
 		timers: map[int]int{}, relMarks: map[int]int{}, cleanups: map[int]int{}, used: map[int]bool{}, current: map[int]bool{},
-		timerBud: int32(c.TimerBud), failBud: int32(c.FailBud)}
+		timerBud: int32(c.TimerBud), failBud: int32(c.FailBud),
+		depEdges: map[int][]depEdge{}, decided: map[int]bool{}, liveRoot: map[int]bool{}, inProgress: map[int]bool{}, pubNode: map[int]int{},
+		expectRoot: map[int64]bool{}, resNode: map[int]bool{}}
 	res = &Result{Kinds: map[string]int{}}
 	defer func() {
 		if e := recover(); e != nil {
